@@ -669,3 +669,84 @@ Proof.
   - eexists (firstn _ s), (skipn _ (skipn _ s)). rewrite firstn_skipn, firstn_skipn. reflexivity.
   - eexists (firstn _ s), (skipn _ (skipn _ s)). rewrite firstn_skipn, firstn_skipn. reflexivity.
 Qed.
+
+(* for every string (balanced or not) the output is a prefix followed by closing braces,
+   never more of them than the prefix leaves open (clamped depth) *)
+Lemma F_shape_all : forall s level sp len n,
+  exists p k r, F s level sp len n = p ++ repeat c_rbrace k /\ s = p ++ r /\
+                k <= cdepth_from (match sp with None => level | Some d => S d end) p.
+Proof.
+  induction s as [|c t IH]; intros level sp len n.
+  - destruct sp as [d|]; cbn [F].
+    + exists [], 1, []. repeat split. cbn [cdepth_from]. lia.
+    + exists [], level, []. repeat split. cbn [cdepth_from]. lia.
+  - destruct sp as [d|]; cbn [F]; unfold is_lbrace, is_rbrace.
+    + destruct (N.eqb c c_lbrace) eqn:El.
+      * destruct (IH level (Some (S d)) len n) as (p & k & r & H1 & H2 & H3).
+        exists (c :: p), k, r. rewrite H1, H2. repeat split. cbn [cdepth_from]. rewrite El. exact H3.
+      * destruct (N.eqb c c_rbrace) eqn:Er.
+        -- destruct d as [|d'].
+           ++ destruct (n <=? len + 1)%Z.
+              ** apply N.eqb_eq in Er; subst c. exists [], 1, (c_rbrace :: t). repeat split. cbn [cdepth_from]. lia.
+              ** destruct (IH 0 None (len + 1)%Z n) as (p & k & r & H1 & H2 & H3).
+                 exists (c :: p), k, r. rewrite H1, H2. repeat split. cbn [cdepth_from pred].
+                 rewrite El, Er. exact H3.
+           ++ destruct (IH level (Some d') len n) as (p & k & r & H1 & H2 & H3).
+              exists (c :: p), k, r. rewrite H1, H2. repeat split. cbn [cdepth_from pred].
+              rewrite El, Er. exact H3.
+        -- destruct (IH level (Some d) len n) as (p & k & r & H1 & H2 & H3).
+           exists (c :: p), k, r. rewrite H1, H2. repeat split. cbn [cdepth_from].
+           rewrite El, Er. exact H3.
+    + destruct (N.eqb c c_lbrace) eqn:El.
+      * destruct (Nat.eqb level 0 && bs_head t) eqn:Esp.
+        -- apply andb_prop in Esp as [E0 _]. apply Nat.eqb_eq in E0; subst level.
+           destruct (IH 0 (Some 0) len n) as (p & k & r & H1 & H2 & H3).
+           exists (c :: p), k, r. rewrite H1, H2. repeat split. cbn [cdepth_from]. rewrite El. exact H3.
+        -- destruct (IH (S level) None len n) as (p & k & r & H1 & H2 & H3).
+           exists (c :: p), k, r. rewrite H1, H2. repeat split. cbn [cdepth_from]. rewrite El. exact H3.
+      * destruct (N.eqb c c_rbrace) eqn:Er.
+        -- destruct level as [|l']; cbn [andb Nat.ltb Nat.leb pred].
+           ++ unfold is_brace, is_lbrace, is_rbrace. rewrite El, Er. cbn [orb].
+              destruct (IH 0 None len n) as (p & k & r & H1 & H2 & H3).
+              exists (c :: p), k, r. rewrite H1, H2. repeat split. cbn [cdepth_from pred].
+              rewrite El, Er. exact H3.
+           ++ destruct (IH l' None len n) as (p & k & r & H1 & H2 & H3).
+              exists (c :: p), k, r. rewrite H1, H2. repeat split. cbn [cdepth_from pred].
+              rewrite El, Er. exact H3.
+        -- cbn [andb]. unfold is_brace, is_lbrace, is_rbrace. rewrite El, Er. cbn [orb].
+           destruct (n <=? len + 1)%Z.
+           ++ exists [c], level, t. repeat split. cbn [cdepth_from]. rewrite El, Er. lia.
+           ++ destruct (IH level None (len + 1)%Z n) as (p & k & r & H1 & H2 & H3).
+              exists (c :: p), k, r. rewrite H1, H2. repeat split. cbn [cdepth_from].
+              rewrite El, Er. exact H3.
+Qed.
+
+Lemma prefix_is_prefix_lemma s n out :
+  bibtex_prefix s n = Ok out ->
+  exists p k, out = p ++ repeat c_rbrace k /\ is_prefix p s /\ k <= cdepth_from 0 p.
+Proof.
+  unfold bibtex_prefix. intros H. destruct (0 <? n)%Z eqn:En.
+  - apply Z.ltb_lt in En. inv_ok.
+    pose proof (prefix_fused s 0 None r 0 n 0 En Hr) as Hf. cbn beta iota in Hf.
+    unfold pfx in Hf. cbv zeta in Hf. rewrite Hf.
+    destruct (F_shape_all s 0 None 0 n) as (p & k & r' & H1 & H2 & H3).
+    exists p, k. split; [exact H1|]. split; [exists r'; exact H2|exact H3].
+  - inv_ok. exists [], 0. repeat split; [exists s; reflexivity|cbn; lia].
+Qed.
+
+(* ------------------------------------------------------------------ no foreign exception anywhere *)
+Lemma primitives_total_lemma s :
+  (too_deep 100 0 s = false /\
+   (exists n, bibtex_len s = Ok n) /\ (forall k, exists p, bibtex_prefix s k = Ok p) /\
+   (exists p, bibtex_purify s = Ok p) /\ (forall m, exists o, change_case s m = Ok o)) \/
+  (too_deep 100 0 s = true /\
+   bibtex_len s = PyErr E_BIBTEX (-1) /\
+   (forall k, (0 < k)%Z -> bibtex_prefix s k = PyErr E_BIBTEX (-1)) /\
+   bibtex_purify s = PyErr E_BIBTEX (-1) /\ (forall m, change_case s m = PyErr E_BIBTEX (-1))).
+Proof.
+  destruct (scan_total_lemma s) as [[Ht Hs]|[Ht [ts Hs]]]; [right|left]; (split; [exact Ht|]).
+  - unfold bibtex_len, bibtex_prefix, bibtex_purify, change_case. rewrite Hs. cbn [bind].
+    repeat split; auto. intros k Hk. apply Z.ltb_lt in Hk. rewrite Hk. reflexivity.
+  - unfold bibtex_len, bibtex_prefix, bibtex_purify, change_case. rewrite Hs. cbn [bind].
+    repeat split; eauto. intros k. destruct (0 <? k)%Z; eauto.
+Qed.
